@@ -42,6 +42,29 @@ CHECKS['C06'] = dict(
          'a replacement equal to the failed vector is accepted only for coarse-precision parameters when new draws were consumed.',
     technique=TECH + ': exhaustive enumeration of per-design failure patterns + seeded sampling of pattern combinations and schedules')
 
+CHECKS['C10'] = dict(
+    level='exploration', ref='DESIGN.md 6 (C10)',
+    text='Seeded histories of sync_individual / sync_all / mutation / read-mode view over harness-built individuals '
+         '(special floats incl. +-inf, denormals and -0.0, numpy scalars, nested custom data, references between '
+         'individuals, repeated ids) and complete runs of the eight synchronising algorithms against a real SQLite file; '
+         'a reference dict id -> last synchronised fields, built from the attributes and not through artap\'s own '
+         'to_dict, is compared bit-exactly through ProblemViewDataStore and raw row counts after the history and at '
+         'seeded intermediate points. Sampling of histories, not proof.',
+    note='single writer (C07 covers concurrent writers); float bounds/costs (O1); NaN not generated; real libsqlite3 on tmpfs.',
+    technique=TECH + ': seeded operation histories against the real store, reference-model oracle through a read-mode view')
+CHECKS['C11'] = dict(
+    level='fault_enumeration', ref='DESIGN.md 6 (C11), 4.7',
+    text='Real process death: each crash point re-executes a seeded trace (store history, batch, NSGA-II / eps-MOEA / '
+         'OMOPSO / sweep run; serial and 2-3 simulated workers) in a forked child that _exits at the k-th Python-level '
+         'event or - via an LD_PRELOAD shim - at entry of the k-th file-mutating libc call on the store directory '
+         '(torn page-crossing writes in the thorough tier); a fresh child then opens the directory with a read-mode '
+         'view. All points of each listed trace are enumerated (T measured by un-armed runs), so for those traces the '
+         'crash-point quantifier is covered completely; traces themselves are sampled.',
+    note='process death only (page cache survives); between two mutating calls durable state is constant, acknowledgements '
+         'travel through a pipe; shim falls back to event-level points if it cannot be loaded (reported in evidence).',
+    technique=TECH + ': exhaustive crash-point enumeration per seeded trace (fork + _exit, LD_PRELOAD syscall counter), '
+              'acknowledgement-vs-durable-state oracle in a fresh process')
+
 NOT_BUILT = 'claimed in DESIGN.md; its check is not part of this commit yet'
 NA = {
     'C12': 'pure single-call functions (bounds, N, one PRNG vector) -> matrix; nothing is scheduled, retried, shared or '
